@@ -22,7 +22,7 @@ LEVEL = "proof"
 TRUSTED = [py2lean.trusted_note("pnorm")]
 PROP_FILES = ["PersimVerif/Props/C10.lean", py2lean.prop_file("pnorm")]
 RULE = ("landscapes built by the real classes from generated diagrams (1-7 bars; lattice/half/eighth/decimal/uniform "
-        "coordinates, whole diagram rescaled by 2^k, k in {-20,-3,0,3,20}; duplicates 15%; diagonal bars in a flagged "
+        "coordinates, whole diagram rescaled by 2^k, k in {-40,-30,-20,-3,0,3,20,30}; duplicates 15%; diagonal bars in a flagged "
         "sub-stream) as single / negated / difference / P-P / random linear combinations of 2-3 landscapes (exact and "
         "grid, 5-40 grid nodes), plus synthetic piecewise-linear functions with forced zeros and equal neighbours fed "
         "to _p_norm directly; every natural p in 1..20 and real p in [1,20]; a malformed stream (p<0, p=0, p=-1, "
@@ -163,7 +163,7 @@ def gen_family(ctx, k, diag_p=0.0):
     """k diagrams sharing coordinate mode and scale (so that their landscapes overlap and differences change sign)"""
     r = ctx.rng
     mode = r.choice(["lattice", "lattice", "half", "eighth", "dec", "unif"])
-    scale = 2.0 ** r.choice([-20, -3, 0, 0, 0, 0, 3, 20])
+    scale = 2.0 ** r.choice([-40, -30, -20, -3, 0, 0, 0, 0, 3, 20, 30])
     ctx.count("mode:" + mode)
     ctx.count("scale:2^%d" % int(math.log2(scale)))
     return mode, scale, [gen_dgm(ctx, mode, scale, diag_p=diag_p) for _ in range(k)]
@@ -195,7 +195,7 @@ def gen_synthetic(ctx):
     """piecewise-linear functions that need not be landscapes: arbitrary slopes, forced zeros, equal neighbours"""
     r = ctx.rng
     mode = r.choice(["lattice", "half", "eighth", "dec", "unif"])
-    scale = 2.0 ** r.choice([-20, -3, 0, 0, 0, 3, 20])
+    scale = 2.0 ** r.choice([-40, -30, -20, -3, 0, 0, 0, 3, 20, 30])
     out = []
     for _ in range(r.randint(1, 3)):
         n = r.randint(2, 8)
